@@ -18,7 +18,7 @@ def run(sid):
     tmp = tempfile.mkdtemp(prefix="verif-seed-")
     try:
         shutil.copytree("/repo/xandikos", os.path.join(tmp, "xandikos"), ignore=shutil.ignore_patterns("__pycache__"))
-        r = subprocess.run(["patch", "-p1", "-s", "-i", os.path.join(d, "patch.diff")], cwd=tmp, capture_output=True, text=True)
+        r = subprocess.run(["patch", "-p1", "-s", "-F5", "-i", os.path.join(d, "patch.diff")], cwd=tmp, capture_output=True, text=True)
         if r.returncode != 0:
             return sid, {"property": prop, "result": "PATCH-FAILED", "detail": r.stdout[-200:]}
         res = {}
